@@ -625,7 +625,71 @@ func vReplayJob(task engine.SeqTask) (res engine.SeqResult) {
 	return
 }
 
+// c08Large: one long history with a source larger than the default batch size (10000, used when a job has none):
+// n entities, a run per job type, one more write, another run.
+func c08Large(n int) (res engine.SeqResult) {
+	defer func() {
+		if r := recover(); r != nil {
+			res.Viol = append(res.Viol, engine.Violation{Key: "C08:panic|large", What: fmt.Sprintf("panic in the long history: %v", r)})
+			jWorkerWorld = nil
+		}
+	}()
+	jw := jWorld()
+	pool := model.Pool(0)
+	for _, sp := range []JobSpec{{Sources: []string{"A"}, Sink: "Z", JobType: "incremental"}, {Sources: []string{"A"}, LatestOnly: true, Sink: "Z", JobType: "fullsync"}} {
+		h := jw.W.NewHist()
+		if err := h.EnsureDatasets("A", "B", "Z"); err != nil {
+			res.HarnessEr = err.Error()
+			return
+		}
+		for i := 0; i < n; i += 2000 {
+			var ents []server.VEnt
+			for j := i; j < i+2000 && j < n; j++ {
+				ents = append(ents, server.VEnt{ID: fmt.Sprintf("g%d", j+1), C: model.PoolIndex(pool, []string{"v1", "v2"}[j%2])})
+			}
+			if err := h.ApplyWrite(server.VOp{K: "batch", DS: "A", Ents: ents}); err != nil {
+				res.HarnessEr = err.Error()
+				return
+			}
+		}
+		jb, jc, err := jw.newJob(h, sp)
+		if err != nil {
+			res.HarnessEr = "newJob: " + err.Error()
+			return
+		}
+		jh := &jobHist{jw: jw, h: h, sp: sp, id: jc.ID, jb: jb, last: fmt.Sprintf("%d source entities, default batch size", n)}
+		for round := 0; round < 2; round++ {
+			res.Checks++
+			if r, p := jh.run("", 0); p != "" || r.LastError != "" {
+				jh.fail("clean-run-fails", fmt.Sprintf("a run over %d entities with the default batch size fails: %s %s", n, p, r.LastError))
+				break
+			}
+			if sp.JobType != "fullsync" {
+				jh.tokenSafety("after a run over a source larger than the default batch")
+			}
+			jh.converged("after a run over a source larger than the default batch")
+			if err := h.ApplyWrite(server.VOp{K: "batch", DS: "A", Ents: []server.VEnt{{ID: "g7", C: model.PoolIndex(pool, "dv1")}, {ID: "gnew", C: model.PoolIndex(pool, "v1")}}}); err != nil {
+				res.HarnessEr = err.Error()
+				return
+			}
+		}
+		res.Viol = append(res.Viol, jh.viol...)
+	}
+	res.Key = "large"
+	return
+}
+
 func init() {
+	engine.RegisterWorker("job-large", func(args []string) {
+		defer jDestroyWorld()
+		engine.ServeWorker(func(task []byte) interface{} {
+			var t struct {
+				N int `json:"n"`
+			}
+			_ = json.Unmarshal(task, &t)
+			return c08Large(t.N)
+		})
+	})
 	engine.RegisterWorker("job", func(args []string) {
 		defer jDestroyWorld()
 		engine.ServeWorker(func(task []byte) interface{} {
@@ -639,7 +703,7 @@ func init() {
 
 	engine.RegisterCheck("C08", func(r *engine.Run) {
 		r.Rule = "SEQ: for every job configuration (DatasetSource / UnionDatasetSource, with and without LatestOnly, incremental / fullsync, batch sizes 1,2,3,default) every sequence up to the stated depth over {source writes (props, refs, deletes, repeated ids), clean run, run with the sink failing at batch index 1..3, run killed at batch boundary 1..2, a run during which a source write lands at sink call 1..2 (token rule, then convergence after one undisturbed run), restart; for the mixed-trigger job also the fullsync trigger clean / failing at batch 1..2}; a history that ends in a source write after earlier runs is followed by one clean run; after every run: token safety (every source change below the persisted token is reflected in the sink), after a successful run sink view = source view and a re-run is a no-op, after a failed/killed run one clean run restores equality. SCHED: one run (incremental / latest-only / union / fullsync, batch size 1) next to a writer of its source under every interleaving up to the preemption bound: the token rule right after it, equality after one further undisturbed run. CRASH: real SIGKILL at every durable commit and at the point between sink write and token store during a run"
-		r.Assumptions = []string{"equality right after a run is only demanded for runs without concurrent source writes (as the property states)", "HTTP and proxy sources/sinks are outside (need a peer)"}
+		r.Assumptions = []string{"equality right after a run is only demanded for runs without concurrent source writes (as the property states)", "HTTP sources/sinks: see the http-peer part of C10/C11; proxy datasets as sources are outside"}
 		pool := model.Pool(0)
 		pi := func(n string) int { return model.PoolIndex(pool, n) }
 		type cfgT struct {
@@ -704,5 +768,27 @@ func init() {
 		}
 		engine.RunCrash(r, "c08-crash", []string{"worker", "crash-job"}, c08CrashBases(r.Quick()), 0)
 		c08Sched(r)
+		// one long history: a source larger than the default batch size
+		{
+			n := 10050
+			if !r.Quick() {
+				n = 20100
+			}
+			pl := &engine.Pool{N: 1, Args: []string{"worker", "job-large"}, Timeout: 900 * time.Second}
+			out := pl.Do([]json.RawMessage{json.RawMessage(fmt.Sprintf(`{"n":%d}`, n))}, nil)
+			var lr engine.SeqResult
+			if out[0].Err != "" || json.Unmarshal(out[0].Out, &lr) != nil || lr.HarnessEr != "" {
+				r.Cap("c08-large: worker problem " + out[0].Err + " " + lr.HarnessEr)
+			} else {
+				for _, v := range lr.Viol {
+					v.Engine = "ENUM:c08-large"
+					v.Replay = map[string]interface{}{"worker": []string{"worker", "job-large"}, "n": n}
+					r.AddViolation(v)
+				}
+				r.Evaluations += lr.Checks
+				r.Traces++
+				r.AddPart(map[string]interface{}{"engine": "ENUM", "name": "c08-large-source", "entities": n, "checks": lr.Checks})
+			}
+		}
 	})
 }
